@@ -8,31 +8,44 @@
 (*   RWake / RClear / RCall / RRet   receiver loop: wait returned, clear, _process_data entered / returned           *)
 (*   Frame / DSet                    queue_block: put into the dispatch queue, dispatcher trigger set                *)
 (*   DWake / DClear / DQsize(n) / DGet   dispatcher loop                                                         *)
+(*   RStart / REnd                   ProtocolDispatcher.start entered (a receiver thread is created) / the receiver    *)
+(*                                   thread function returned (after stop()).  The model has one receiver loop: a new    *)
+(*                                   receiver thread may only be started when there is none (before the first           *)
+(*                                   connection, or after the previous one ended) -- rthreads counts them.               *)
 EXTENDS DispatcherLoops, Json, IOUtils
 
 Traces == JsonDeserialize(IOEnv.TRACE_FILE)
-VARIABLES tid, l
-tvars == <<vars, tid, l>>
+VARIABLES tid, l, rthreads
+tvars == <<vars, tid, l, rthreads>>
 Ev == Traces[tid].ev
 Cur == Ev[l]
 Is(e) == l <= Len(Ev) /\ Cur.e = e
 Adv == l' = l + 1 /\ UNCHANGED tid
+Same == UNCHANGED rthreads
 
-TInit == Init /\ tid \in 1..Len(Traces) /\ l = 1
-TData == Is("Data") /\ Data(Cur.n) /\ Adv
-TRSet == Is("RSet") /\ (IF Cur.src = "data" THEN DataSet ELSE Kick) /\ Adv
-TRWake == Is("RWake") /\ RWake /\ Adv
-TRClear == Is("RClear") /\ RClear /\ Adv
-TRCall == Is("RCall") /\ RCall /\ Adv
-TFrame == Is("Frame") /\ RFrame /\ Adv
-TDSet == Is("DSet") /\ RDSet /\ Adv
-TRRet == Is("RRet") /\ RRet /\ Adv
-TDWake == Is("DWake") /\ DWake /\ Adv
-TDClear == Is("DClear") /\ DClear /\ Adv
-TDQsize == Is("DQsize") /\ Cur.n = Len(dq) /\ DQsize /\ Adv
-TDGet == Is("DGet") /\ DGet /\ Adv
-Silent == RSeesEmpty /\ UNCHANGED <<tid, l>>
-TNext == TData \/ TRSet \/ TRWake \/ TRClear \/ TRCall \/ TFrame \/ TDSet \/ TRRet \/ TDWake \/ TDClear \/ TDQsize \/ TDGet \/ Silent
+TInit == Init /\ tid \in 1..Len(Traces) /\ l = 1 /\ rthreads = 0
+TData == Same /\ Is("Data") /\ Data(Cur.n) /\ Adv
+TRSet == Same /\ Is("RSet") /\ (IF Cur.src = "data" THEN DataSet ELSE Kick) /\ Adv
+TRWake == Same /\ Is("RWake") /\ rthreads = 1 /\ RWake /\ Adv
+TRClear == Same /\ Is("RClear") /\ RClear /\ Adv
+TRCall == Same /\ Is("RCall") /\ RCall /\ Adv
+TFrame == Same /\ Is("Frame") /\ RFrame /\ Adv
+TDSet == Same /\ Is("DSet") /\ RDSet /\ Adv
+TRRet == Same /\ Is("RRet") /\ RRet /\ Adv
+TDWake == Same /\ Is("DWake") /\ DWake /\ Adv
+TDClear == Same /\ Is("DClear") /\ DClear /\ Adv
+TDQsize == Same /\ Is("DQsize") /\ Cur.n = Len(dq) /\ DQsize /\ Adv
+TDGet == Same /\ Is("DGet") /\ DGet /\ Adv
+Silent == RSeesEmpty /\ UNCHANGED <<tid, l, rthreads>>
+(* stop(): the loop wakes, clears, sees the stop flag and leaves; start(): a fresh loop                               *)
+TREnd == /\ Is("REnd") /\ rpc \in {"call", "wait"} /\ rthreads = 1 /\ rthreads' = 0 /\ rpc' = "wait"
+         /\ UNCHANGED <<buf, pend, rtrig, dtrig, dq, dpc, handed, nextF, kicks>> /\ Adv
+TRStart == /\ Is("RStart") /\ rthreads = 0 /\ rpc = "wait" /\ rthreads' = 1
+           /\ UNCHANGED vars /\ Adv
+(* the connection ended: what was in the receive buffer is dropped (Protocol clears it)                            *)
+TBufClear == Is("BufClear") /\ buf' = <<>> /\ pend' = FALSE /\ UNCHANGED <<rtrig, dtrig, rpc, dq, dpc, handed, nextF, kicks, rthreads>> /\ Adv
+TNext == TData \/ TRSet \/ TRWake \/ TRClear \/ TRCall \/ TFrame \/ TDSet \/ TRRet \/ TDWake \/ TDClear \/ TDQsize \/ TDGet \/ TREnd \/ TRStart \/ TBufClear \/ Silent
 TSpec == TInit /\ [][TNext]_tvars
+OneReceiver == rthreads <= 1
 Progress == PrintT(<<"AT", ToJson([id |-> Traces[tid].id, l |-> l, n |-> Len(Ev)])>>)
 =============================================================================
